@@ -12,10 +12,10 @@ from .common import SPEC, ToolError, log
 JAVA_CP = "/opt/veriftools/tla/tla2tools.jar:/opt/veriftools/tla/CommunityModules-deps.jar"
 
 
-def write_cfg(path, base, overrides=None, invariants=None, properties=None, extra=None):
+def write_cfg(path, base, overrides=None, invariants=None, properties=None, extra=None, spec_dir=None):
     """Instantiate a .cfg: take spec/<base>, replace `NAME = value` / `NAME <- Op` constant lines named
     in `overrides`, optionally replace the INVARIANTS / PROPERTIES sections."""
-    with open(os.path.join(SPEC, base)) as f:
+    with open(os.path.join(spec_dir or SPEC, base)) as f:
         lines = f.read().split("\n")
     out = []
     overrides = dict(overrides or {})
@@ -64,7 +64,7 @@ class TlcResult:
 
 
 def run(module, cfg, workers=8, simulate=None, depth=None, timeout=1800, coverage=False, seed=None,
-        on_value=None, env=None, java_opts=None, deadlock_ok=True):
+        on_value=None, env=None, java_opts=None, deadlock_ok=True, spec_dir=None):
     """Run TLC.  Values printed by the spec are JSON strings on lines of their own; they are decoded
     and either collected in result.printed or passed to on_value (streaming)."""
     meta = tempfile.mkdtemp(prefix="tlc-", dir=os.environ.get("VERIF_SCRATCH", tempfile.gettempdir()))
@@ -81,23 +81,30 @@ def run(module, cfg, workers=8, simulate=None, depth=None, timeout=1800, coverag
         cmd += ["-seed", str(seed)]
     if coverage:
         cmd += ["-coverage", "1"]
-    cmd.append(os.path.join(SPEC, module + ".tla"))
+    cmd.append(os.path.join(spec_dir or SPEC, module + ".tla"))
     res = TlcResult()
     t0 = time.time()
     tail = []
     try:
-        p = subprocess.Popen(cmd, stdout=subprocess.PIPE, stderr=subprocess.STDOUT, text=True, cwd=SPEC,
+        p = subprocess.Popen(cmd, stdout=subprocess.PIPE, stderr=subprocess.STDOUT, text=True, cwd=spec_dir or SPEC,
                              env=dict(os.environ, **(env or {})))
         try:
             for line in p.stdout:
                 if time.time() - t0 > timeout:
                     p.kill()
                     raise ToolError("TLC timed out after %ds: %s" % (timeout, " ".join(cmd)))
+                if getattr(res, "assert_pending", False) and line.strip():
+                    res.assert_pending = False
+                    m2 = re.match(r'\s*"(\w+)"', line)
+                    if m2:
+                        res.violated = m2.group(1)
+                    continue
                 if line.startswith('"'):
                     try:
                         v = json.loads(json.loads(line))
                     except ValueError:
                         tail.append(line[:300])
+                        res.garbled = getattr(res, "garbled", 0) + 1
                         continue
                     if on_value:
                         on_value(v)
@@ -119,6 +126,16 @@ def run(module, cfg, workers=8, simulate=None, depth=None, timeout=1800, coverag
                 m = re.match(r"Error: Action property (\w+) is violated", line)
                 if m:
                     res.violated = m.group(1)
+                m = re.search(r'The first argument of Assert evaluated to FALSE; the second argument was:\s*"?(\w*)', line)
+                if m:
+                    res.violated = m.group(1) or "Assert"
+                    res.assert_pending = not m.group(1)
+                    continue
+                if getattr(res, "assert_pending", False) and line.strip():
+                    res.assert_pending = False
+                    m2 = re.match(r'\s*"(\w+)"', line)
+                    if m2:
+                        res.violated = m2.group(1)
                 if line.startswith("Error:") and res.violated is None and "Deadlock" not in line:
                     res.violated = "ERROR"
                     res.error_text = line.strip()
@@ -135,6 +152,8 @@ def run(module, cfg, workers=8, simulate=None, depth=None, timeout=1800, coverag
         shutil.rmtree(meta, ignore_errors=True)
     res.stats["wall_s"] = round(time.time() - t0, 1)
     res.raw_tail = "\n".join(tail[-60:])
+    if getattr(res, "garbled", 0):
+        raise ToolError("%d printed values of %s could not be decoded:\n%s" % (res.garbled, module, res.raw_tail))
     if res.violated == "ERROR":
         # an evaluation error inside the spec is a tool error, not a verdict
         raise ToolError("TLC error in %s: %s\n%s" % (module, res.error_text, res.raw_tail))
